@@ -1120,7 +1120,9 @@ fn big_pack_cases(rep: &mut Report, sc: &Scratch, rng: &mut Rng, consts: (usize,
             continue;
         }
         let git_idx = std::fs::read(gitdir.join("in.idx")).unwrap_or_default();
-        for (eager, threads) in [(true, 4usize), (true, 1), (false, 4)] {
+        // below the threshold the eager entry point reads on demand like the other one: one run is enough there
+        let runs: &[(bool, usize)] = if n > threshold { &[(true, 4), (true, 1), (false, 4)] } else { &[(true, 4)] };
+        for &(eager, threads) in runs {
             let dir = fresh_dir(sc, "gix-big");
             rep.oracle_checked();
             let via = if eager { "write_to_directory_eagerly" } else { "write_to_directory" };
